@@ -206,32 +206,32 @@ func compile(fn *ssa.Function) *fnInfo {
 // ---- interpreter state ------------------------------------------------
 
 type Interp struct {
-	parseText    map[*value]value     // source text behind modelled ANTLR input streams, lexers and parsers (per path)
-	jsonRaws     map[uintptr]rawEntry // source text of decoded JSON objects/arrays (per path)
-	sh           *Shared
-	prog         *ssa.Program
-	globals      map[*ssa.Global]*value
-	tr           trail
-	ts           *TermStore
-	ex           *pathExec // current path (nil during init)
-	initMode     bool
-	initWarn     map[string]int
+	parseText        map[*value]value     // source text behind modelled ANTLR input streams, lexers and parsers (per path)
+	jsonRaws         map[uintptr]rawEntry // source text of decoded JSON objects/arrays (per path)
+	sh               *Shared
+	prog             *ssa.Program
+	globals          map[*ssa.Global]*value
+	tr               trail
+	ts               *TermStore
+	ex               *pathExec // current path (nil during init)
+	initMode         bool
+	initWarn         map[string]int
 	customValidators map[string]value // validate tag -> the validator.Func goflow registered for it
-	vfr          *frame              // frame custom validators are called from
-	steps        int64
-	budget       int64
-	depth        int
-	trace        bool
-	clock        int64
-	uuidSeq      int
-	hostObjs     map[string]value
-	funcsRun     map[*ssa.Function]struct{}
-	mapRange     map[string]int
-	worker       *Worker
-	infoCache    map[*ssa.Function]*fnInfo
-	methCache    map[methKey]*ssa.Function
-	failStack    string
-	pathDeadline time.Time
+	vfr              *frame           // frame custom validators are called from
+	steps            int64
+	budget           int64
+	depth            int
+	trace            bool
+	clock            int64
+	uuidSeq          int
+	hostObjs         map[string]value
+	funcsRun         map[*ssa.Function]struct{}
+	mapRange         map[string]int
+	worker           *Worker
+	infoCache        map[*ssa.Function]*fnInfo
+	methCache        map[methKey]*ssa.Function
+	failStack        string
+	pathDeadline     time.Time
 }
 
 type deferred struct {
